@@ -10,7 +10,7 @@ from .. import astutil as A
 from ..fa import FA
 from ..loader import AnalysisError
 from .cache_model import (CacheModel, self_attr, CACHE_CLASS, branch_filter, both, no_back_edges, every_path_through,
-                          at_most_once, bool_leaves, edge_implies, linear_terms, safe_expand)
+                          at_most_once, bool_leaves, edge_implies, linear_terms, safe_expand, value_sources)
 
 
 def _block_of(fa: FA, st):
@@ -602,6 +602,9 @@ def _check_budget_site(ck, cm, R, fa, ins):
                 for c in A.calls_in(n.ast):
                     if cm.is_self_call(c, cm.evict) or any(cm.is_self_call(c, mi) for mi in cm.inserts):
                         w = True
+            if n.kind == "stmt" and isinstance(n.ast, ast.AugAssign) and isinstance(n.ast.op, ast.Add) and self_attr(n.ast.target, cm.counter) \
+                    and (A.norm(n.ast.value) in forms or bt._is_size(n.ast.value, n.id)) and not any(cm.is_self_call(c, cm.evict) for c in A.calls_in(n.ast)):
+                w = False  # the account of this very insertion, written just ahead of it (held to exactly-once by C06.R1 ins-map)
             if w and n.id not in ins_nodes and set(ins_nodes) & cfg.reach([n.id], edge_ok=g_room, include_start=False):
                 bad.append(n)
         ck.ob(R, fa.key(ins, "no-write-after-loop"), not bad,
@@ -733,12 +736,15 @@ def check_lru(ck, cm: CacheModel):
         for r in f2.returns():
             if r.value is None:
                 continue
-            deps = set()
-            for i in f2.nodes(r):
-                deps |= f2.df.deps(r.value, i)
-            from_map = any(d == "attr:self.%s" % cm.map for d in deps) and "getattr:value" in deps
-            if from_map:
-                ok = all(f2.cfg.must_pass(marks, i) for i in f2.nodes(r))
+            # where the served value is read out of the resident map: in the return itself, or into a result variable
+            reads = []
+            for (v_, at_) in value_sources(f2, r):
+                deps = f2.df.deps(v_, at_)
+                if any(d == "attr:self.%s" % cm.map for d in deps) and "getattr:value" in deps:
+                    reads.append(at_)
+            if reads:
+                # every path that reads a resident value refreshes the key's recency (before or after the read)
+                ok = every_path_through(f2, reads, marks)
                 ck.ob(R, f2.key(r, "hit-marks-used"), ok,
                       "a served value is marked used" if ok else
                       "a resident value is returned without refreshing its recency", f2.where(r))
